@@ -46,6 +46,7 @@ PRELUDE = """#![allow(dead_code, unused_variables, unused_imports, clippy::all)]
 #![cfg_attr(not(feature = "cfg-std"), no_std)]
 extern crate alloc;
 use alloc::vec::Vec;
+use core::cell::Cell;
 use core::future::Future;
 use core::num::NonZeroUsize;
 use futures_core::Stream;
@@ -294,15 +295,17 @@ def gen_any(rng, depth):
 
 
 # ---------------------------------------------------------------- concurrent streams
+# Closures are Send but deliberately NOT Sync (they own a Cell): the property
+# promises a Send future for Send closures, nothing more is assumed.
 ADAPTERS = {
-    "map": ".map(|x| async move { x })",
+    "map": ".map({ let c = Cell::new(0u32); move |x| { c.set(c.get() + 1); async move { x } } })",
     "enumerate": ".enumerate()",
     "take": ".take(3)",
     "limit": ".limit(NonZeroUsize::new(2))",
 }
 TERMINALS = {
-    "for_each": ".for_each(|x| async move { drop(x) })",
-    "try_for_each": ".try_for_each(|x| async move { drop(x); Ok::<(), E>(()) })",
+    "for_each": ".for_each({ let c = Cell::new(0u32); move |x| { c.set(c.get() + 1); async move { drop(x) } } })",
+    "try_for_each": ".try_for_each({ let c = Cell::new(0u32); move |x| { c.set(c.get() + 1); async move { drop(x); Ok::<(), E>(()) } } })",
     "collect": ".collect::<Vec<_>>()",
 }
 
